@@ -211,6 +211,7 @@ def _diff(
     relink: bool = False,
     ignore: Optional["Ignore"] = None,
     old: Union["HashFile", "Tree", None] = None,
+    force: bool = False,
 ):
     if old is None:
         try:
@@ -228,7 +229,11 @@ def _diff(
                 ignore=ignore,
             )
         except FileNotFoundError:
-            pass
+            # NOTE: the path might exist but contain something unreadable
+            # (e.g. a broken symlink), in which case we don't know what is in
+            # there and must not overwrite it without force.
+            if not force and fs.exists(path):
+                raise
 
     diff = odiff(old, obj, cache)
     if relink:
@@ -381,6 +386,7 @@ def checkout(  # noqa: PLR0913
         relink=relink,
         ignore=ignore,
         old=old,
+        force=force,
     )
 
     failed = []
